@@ -7,7 +7,9 @@ unchanged; `write` additionally appends to the list.  The CPU model (`MicroOp.ru
 
   `cycle_ghost` : the CPU state and the wrapped bus after a cycle on `Ghost M` are exactly the CPU state and the
                   bus after the cycle on `M` – the instrumentation observes, it does not interfere;
-  `cycle_wr_prefix` : the log only grows.
+  `cycle_wr_prefix` : the log only grows;
+  `cycle_wr_addrs`  : what a cycle appends are the write addresses of the ONE micro-operation it executes, given by
+                  the explicit tag function `writeAddrs` (micro-operation, registers, IME).
 
 Used by Proofs/C17Whole.lean to say "the CPU wrote address a in this machine cycle" without re-describing which
 micro-operation writes where (compare `Model/LogBus.lean`, which does the same for the flat bus of the ISA
@@ -158,5 +160,93 @@ theorem cycle_wr_prefix (t : Tables) (c : Cpu) (g : Ghost M) : ∃ l, (cycle t c
       · obtain ⟨l, hl⟩ := stepSub_wr_prefix (next t c g).cpu (next t c g).bus
         exact ⟨l, by rw [hl, h4]⟩
     · exact stepSub_wr_prefix c g
+
+/-! ### what the log holds: the write addresses of the ONE micro-operation executed in the cycle -/
+
+/-- the addresses a micro-operation writes, as a function of the registers it starts from (and, for the interrupt
+    dispatch, of IME).  Hand-written tag function; `run_wr_addrs` proves it is what `MicroOp.run` does. -/
+def writeAddrs (μ : MicroOp) (r : Regs) (ime : Bool) : List Word :=
+  match μ with
+  | .ldMR _ => [r.hl]
+  | .storeA i => [i.addr r]
+  | .storeAHLI => [r.hl]
+  | .storeAHLD => [r.hl]
+  | .writeLowSP => [r.u16]
+  | .writeHighSP => [r.u16 + 1]
+  | .incM => [r.hl]
+  | .decM => [r.hl]
+  | .rotM _ => [r.hl]
+  | .resM _ => [r.hl]
+  | .setM _ => [r.hl]
+  | .push _ => [r.sp - 1]
+  | .handleInterrupt => if ime then [r.sp - 1, r.sp - 1 - 1] else []
+  | _ => []
+
+private theorem map_snoc (l : List (Word × Byte)) (a : Word) (v : Byte) :
+    (l ++ [(a, v)]).map (·.1) = l.map (·.1) ++ [a] := by
+  rw [List.map_append]; rfl
+
+theorem handleInterrupt_wr_addrs (r : Regs) (g : Ghost M) :
+    (handleInterruptF r g).2.wr.map (·.1) =
+      g.wr.map (·.1) ++ (if Bus.ime g.bus then [r.sp - 1, r.sp - 1 - 1] else []) := by
+  unfold handleInterruptF
+  rw [ghost_ime]
+  cases Bus.ime g.bus
+  · exact (List.append_nil _).symm
+  · simp only [if_true]
+    have e : pendingBits (Bus.setIme g false) = pendingBits (Bus.setIme g.bus false) := rfl
+    rw [e]
+    cases pendingSource (pendingBits (Bus.setIme g.bus false)) <;>
+      (show List.map _ ((g.wr ++ [_]) ++ [_]) = _
+       rw [map_snoc, map_snoc, List.append_assoc]
+       rfl)
+
+/-- a micro-operation appends to the log exactly the addresses `writeAddrs` lists -/
+theorem run_wr_addrs (μ : MicroOp) (r : Regs) (g : Ghost M) :
+    (μ.run r g).2.wr.map (·.1) = g.wr.map (·.1) ++ writeAddrs μ r (Bus.ime g.bus) := by
+  cases μ
+  case handleInterrupt => exact handleInterrupt_wr_addrs r g
+  case alu op s => cases s <;> exact (List.append_nil _).symm
+  case inc16 k => cases k <;> exact (List.append_nil _).symm
+  case dec16 k => cases k <;> exact (List.append_nil _).symm
+  all_goals first
+    | exact (List.append_nil _).symm
+    | exact map_snoc _ _ _
+
+/-- the write addresses of the sub-instruction of the current cycle -/
+def subWriteAddrs (c : Cpu) (m : M) : List Word :=
+  match c.ops[c.cycle]? with
+  | none => []
+  | some μ => writeAddrs μ c.regs (Bus.ime m)
+
+/-- the write addresses of one machine cycle: those of the one micro-operation it executes (instruction fetch and
+    interrupt checks write nothing) -/
+def cycleWriteAddrs (t : Tables) (c : Cpu) (m : M) : List Word :=
+  if c.crashed || c.regs.exited then []
+  else if c.isFinished then
+    (if (next t c m).halted then [] else subWriteAddrs (next t c m).cpu (next t c m).bus)
+  else subWriteAddrs c m
+
+theorem stepSub_wr_addrs (c : Cpu) (g : Ghost M) :
+    (stepSub c g).2.wr.map (·.1) = g.wr.map (·.1) ++ subWriteAddrs c g.bus := by
+  unfold stepSub subWriteAddrs
+  cases c.ops[c.cycle]? with
+  | none => exact (List.append_nil _).symm
+  | some μ => exact run_wr_addrs μ c.regs g
+
+/-- **what the ghost log holds after a machine cycle** -/
+theorem cycle_wr_addrs (t : Tables) (c : Cpu) (g : Ghost M) :
+    (cycle t c g).2.wr.map (·.1) = g.wr.map (·.1) ++ cycleWriteAddrs t c g.bus := by
+  unfold cycle cycleWriteAddrs
+  split
+  · exact (List.append_nil _).symm
+  · split
+    · obtain ⟨h1, h2, h3, h4⟩ := next_ghost t c g
+      simp only []
+      rw [h3]
+      split
+      · rw [h4]; exact (List.append_nil _).symm
+      · rw [stepSub_wr_addrs, h4, h1, h2]
+    · exact stepSub_wr_addrs c g
 
 end Tetro.GhostBus
